@@ -7,6 +7,7 @@ mod build;
 mod coding;
 mod d_lzma;
 mod d_stream;
+mod d_xz;
 mod io;
 mod kernel;
 mod oracle;
@@ -112,6 +113,22 @@ fn main() {
             }
             finish(rep, &a);
         }
+        "xz" => {
+            let mut rep = Report::new("xz");
+            if let Some(p) = a.get("export") {
+                d_xz::replay_export(p, &prop, seed, a.num("limit", 50000) as usize, &mut rep);
+            }
+            let nf = a.num("flip-files", 0) as usize;
+            if nf > 0 {
+                d_xz::flips(&prop, seed, nf, &mut rep);
+            }
+            finish(rep, &a);
+        }
+        "xzlib" => {
+            let lib = d_xz::payload_lib();
+            let v: Vec<serde_json::Value> = lib.iter().map(|(p, o)| serde_json::json!({"plen": p.len(), "ulen": o.len()})).collect();
+            println!("{}", serde_json::Value::Array(v));
+        }
         "constants" => {
             #[cfg(lzma_rs_verif)]
             {
@@ -133,6 +150,7 @@ fn main() {
             match case["kind"].as_str().unwrap_or("") {
                 "lzma" => d_lzma::replay_value(case, &prop, &mut rep),
                 "stream" => d_stream::replay_value(case, &prop, &mut rep),
+                "xz" | "xzbytes" => d_xz::replay_value(case, &prop, &mut rep),
                 k => {
                     eprintln!("unknown case kind {}", k);
                     std::process::exit(2);
